@@ -299,6 +299,10 @@ def run_correspondence(ck, consts):
             groups.setdefault((c["proto"], sig), []).append(c)
         for (proto, sig), cs in sorted(groups.items())[:12]:
             worst = min(cs, key=lambda c: (c.get("step", 0), c["nrows"], len(json.dumps(c["body"]))))
+            if any(c.get("reads") for c in cs):
+                sig += "; %d of the %d cases with this signature were delivered to the parser in short reads (1..reads bytes per Read call)" % (sum(1 for c in cs if c.get("reads")), len(cs))
+            if any("big-body" in c["class"] for c in cs):
+                sig += "; %d of them are bodies longer than the decoder's 64 KiB read buffer" % sum(1 for c in cs if "big-body" in c["class"])
             if worst.get("ttl_multi"):
                 sig += "; the body hands a label buffer with a __ttl_days__ label in front of other labels to onEntries more than once (%d of the %d cases with this signature do)" % (
                     sum(1 for c in cs if c.get("ttl_multi")), len(cs))
@@ -369,6 +373,16 @@ def run_correspondence(ck, consts):
                              "with_shared_announcement_cache": sum(1 for v in hists.values() if v[0].get("cache") == "shared"),
                              "mixed_protocols": sum(1 for v in hists.values() if len({x["proto"] for x in v}) > 1)}
     ck.obligation("histories (2..5 bodies decoded one after another in one process) are part of the run: %d histories" % nh, nh > 0)
+    sr = {}
+    for c in cases:
+        if c.get("reads"):
+            sr[c["proto"]] = sr.get(c["proto"], 0) + 1
+    ck.extra["bodies_delivered_in_short_reads"] = sr
+    ddbig = [c for c in cases if c["proto"] == "ddlog" and "big-body" in c["class"] and not c["class"].startswith("corpus:")]
+    ck.extra["datadog_log_bodies_longer_than_the_read_buffer"] = [{"entries": c["nrows"], "key_order": c.get("key_order"), "reads": c.get("reads", 0)} for c in ddbig]
+    ck.obligation("read-buffer refills: bodies reach the parsers in short reads (%d bodies, every JSON decoder among them), Datadog log bodies longer than the 64 KiB read buffer with message-first entries across every refill (%d bodies)"
+                  % (sum(sr.values()), len(ddbig)),
+                  all(sr.get(p, 0) > 0 for p in ("loki_json", "ddlog", "ddmet", "ddcf", "esbulk")) and (bool(ddbig) or consts.get("_more_histories") or len(cases) < 300))
     tm = {}
     for c in cases:
         if c.get("ttl_multi"):
